@@ -53,8 +53,12 @@ NEEDS_CAL = {"RA": True, "RB": True, "RBfc": True, "RC": False}
 POLICIES = ["P0", "P1"]      # P0 = the default policy; P1 = static a8w8 only for FULLY_CONNECTED / INPUT / OUTPUT (+ dynamic FC)
 LOAD_OUTCOME = {("RA", "P0"): ("ok", "RA"), ("RA", "P1"): ("ok", "RA"), ("RB", "P0"): ("ok", "RB"), ("RB", "P1"): ("raise", "RBfc"),
                 ("RC", "P0"): ("ok", "RC"), ("RC", "P1"): ("ok", "RC")}
-STATS_OF = {("RA", "P0"): ["FC", "TANH", "RESHAPE", "ADD", "IO"], ("RA", "P1"): ["FC", "IO"], ("RB", "P0"): ["FC", "ADD"], ("RB", "P1"): ["FC"],
-            ("RBfc", "P0"): ["FC"], ("RBfc", "P1"): ["FC"], ("RC", "P0"): [], ("RC", "P1"): []}
+# statistics are kept per TENSOR: the runtime tensors whose statistics a recipe needs (and calibration under it records) under each
+# policy. FC reads t0 writes t3; TANH t3 -> t4; RESHAPE t4 -> t6; ADD (t6, t0) -> t7; the model input / output are t0 / t7.
+_T = {"FC": ["t0", "t3"], "TANH": ["t3", "t4"], "RESHAPE": ["t4", "t6"], "ADD": ["t6", "t0", "t7"], "IO": ["t0", "t7"]}
+_ops = {("RA", "P0"): ["FC", "TANH", "RESHAPE", "ADD", "IO"], ("RA", "P1"): ["FC", "IO"], ("RB", "P0"): ["FC", "ADD"], ("RB", "P1"): ["FC"],
+        ("RBfc", "P0"): ["FC"], ("RBfc", "P1"): ["FC"], ("RC", "P0"): [], ("RC", "P1"): []}
+STATS_OF = {k: sorted({t for o in v for t in _T[o]}) for k, v in _ops.items()}
 WRITES = {("RA", "P0"): True}
 
 
@@ -251,7 +255,25 @@ def _replay_steps(trans, world, snaps, qs, problems, hist, pol, folder):
         problems.append(("input-mutated", "step %d %s modified caller-owned %s" % (step + 1, act, name)))
         snaps[name] = copy.deepcopy(world[name])
     if got != act[-1]:
-      problems.append(("outcome", "step %d %s: spec predicts %s, implementation %s" % (step + 1, act[:-1], act[-1], got)))
+      kindp = "outcome"
+      if kind == "quantize" and not got.startswith("raise:other"):
+        # C14 is about history-independence: what decides is whether a FRESH Quantizer given equal arguments behaves like this one.
+        # If it does, the disagreement is between the implementation and the specification's outcome table (drift), not a violation.
+        try:
+          cal0 = world["cals"][act[2] - 1] if act[2] else None
+          fresh_quantize(world["model"], q.get_quantization_recipe(), copy.deepcopy(cal0), pol, cur_pol[0])
+          fresh = "ok"
+        except RuntimeError as e:
+          m = str(e)
+          fresh = "raise:norecipe" if "without a quantization recipe" in m else "raise:nocal" if "QSVs) are required" in m else "raise:other"
+        except ValueError as e:
+          m = str(e)
+          fresh = "raise:missing" if ("not found in tensor_name_to_qsv" in m or "min and max must be provided" in m) else "raise:other"
+        except Exception:  # pylint: disable=broad-except
+          fresh = "raise:other"
+        if fresh == got:
+          kindp = "drift"
+      problems.append((kindp, "step %d %s: spec predicts %s, implementation %s" % (step + 1, act[:-1], act[-1], got)))
       break     # the two have diverged: later steps are not comparable
   return {"problems": problems, "nq": nq, "hist": hist}
 
@@ -357,6 +379,9 @@ def main():
     nq += out["nq"]
     for kind, msg in out["problems"]:
       if kind == "harness":
+        continue
+      if kind == "drift":
+        chk.note("spec-drift outcome %s (a fresh Quantizer given equal arguments behaves the same)" % msg)
         continue
       chk.violation("%s: %s" % (kind, msg), {"property": "C14", "history": out["hist"], "clause": kind})
   nproc = fresh_process_check(chk, args.seed, args.tier)
